@@ -58,6 +58,13 @@ def w0 : World where
   ampKey k := k.take 1
   compKey k := k
 
+/-! ### the unsound variants (one switch each) -/
+
+def aliasedVariant : Variant := ⟨true, true, false, true⟩
+def noResetVariant : Variant := ⟨false, false, false, true⟩
+def sharedVariant : Variant := ⟨false, true, true, true⟩
+def tiesVariant : Variant := ⟨false, true, false, false⟩
+
 /-! ### histories -/
 
 /-- stable ids; default; stable ids again — one builder, DPD(1) -/
